@@ -40,6 +40,8 @@ class ProgGen:
         self.gmap = {n: t for n, t in globs}
         funcs = []
         self.helpers = []
+        self.hwrites = {"d0": set()}  # helper -> globals it (transitively) writes
+        self.hoisted = 0
         self.rec = None
         if self.sw["calls"]:
             for i in range(r.randint(1, 2)):
@@ -55,6 +57,7 @@ class ProgGen:
                         # activation: the caller's argument expression must not be affected)
                         pn = h["params"][0][0]
                         h["body"].insert(0, ["assign", ["var", pn], "=", ["bin", "+", ["var", pn], ["lit", r.randint(1, 5)]]])
+                self.hwrites[h["name"]] = self._direct_writes(h["body"])
                 funcs.append(h)
                 self.helpers.append(h)
             arrs = [(n, t) for n, t in globs if t[0] == "arr" and t[1] == "int"]
@@ -124,6 +127,99 @@ class ProgGen:
     # Likewise both operands of && and || beyond the first comparison's left side are pure, so that
     # an implementation that short-circuits them computes the same thing.
     _pure = 0
+
+    # ... and where the one effectful operand is a call of a helper that *writes* globals, no other
+    # part of the statement (sibling operands, the target of a compound assignment, index
+    # expressions of the target) may read one of those globals - such a call is hoisted into a
+    # local of its own in front of the statement (order_safe), so that left-to-right and
+    # right-to-left evaluation of the statement compute the same thing.
+    def _names(self, x, skip=None, out=None):
+        """Globals mentioned anywhere in expression/lvalue x (not inside node `skip`)."""
+        out = set() if out is None else out
+        if x is skip or not isinstance(x, list):
+            return out
+        if x and isinstance(x[0], str):
+            if x[0] in ("var", "fld", "fld2", "fldidx", "idx", "idx2") and x[1] in self.gmap:
+                out.add(x[1])
+            if x[0] == "call" and x is not skip:
+                out.update(self.gmap)  # another call: assume it reads everything
+        for y in x:
+            self._names(y, skip, out)
+        return out
+
+    def _calls(self, x, out):
+        if isinstance(x, list):
+            if x and x[0] == "call":
+                out.append(x)
+            for y in x:
+                self._calls(y, out)
+        return out
+
+    def _direct_writes(self, body):
+        w = set()
+
+        def walk(x):
+            if not isinstance(x, list):
+                return
+            if x and isinstance(x[0], str):
+                if x[0] == "assign" and x[1][1] in self.gmap:
+                    w.add(x[1][1])
+                elif x[0] == "incdec" and x[2] in self.gmap:
+                    w.add(x[2])
+                elif x[0] == "swz" and x[1] in self.gmap:
+                    w.add(x[1])
+                elif x[0] == "call":
+                    w.update(self.hwrites.get(x[1], self.gmap))
+            for y in x:
+                walk(y)
+
+        walk(body)
+        return w
+
+    def order_safe(self, body):
+        out = []
+        for s_ in body:
+            k = s_[0]
+            exprs, extra = [], set()
+            if k == "assign":
+                exprs = [s_[3]] + list(s_[1][2:])
+                if s_[1][1] in self.gmap and (s_[2] != "=" or s_[1][0] != "var"):
+                    extra.add(s_[1][1])
+                extra |= self._names(s_[1][2:])
+            elif k == "swz":
+                exprs = [s_[3]]
+                if s_[1] in self.gmap:
+                    extra.add(s_[1])
+            elif k == "decl" and s_[3] is not None:
+                exprs = [s_[3]]
+            elif k == "if":
+                exprs = [s_[1]]
+                s_[2] = self.order_safe(s_[2])
+                if s_[3] is not None:
+                    s_[3] = self.order_safe(s_[3])
+            elif k == "return":
+                exprs = [s_[1]]
+            elif k == "for":
+                s_[3] = self.order_safe(s_[3])
+            elif k in ("while", "do"):
+                s_[2] = self.order_safe(s_[2])
+            calls = []
+            for e in exprs:
+                self._calls(e, calls)
+            for c in calls:
+                w = set(self.hwrites.get(c[1], self.gmap))
+                if not w:
+                    continue
+                reads = set(extra)
+                for e in exprs:
+                    self._names(e, c, reads)
+                if w & reads or len(calls) > 1:
+                    self.hoisted += 1
+                    nm = f"z{self.hoisted}"
+                    out.append(["decl", ["int"], nm, list(c)])
+                    c[:] = ["var", nm]
+            out.append(s_)
+        return out
 
     def pure(self, fn, *a):
         self._pure += 1
@@ -510,6 +606,7 @@ class ProgGen:
         body = prefix + body
         if self.ret != "void":
             body.append(["return", self.int_expr(env) if self.ret == "int" else self.float_expr(env)])
+        body = self.order_safe(body)
         return {
             "name": name,
             "export": export,
